@@ -1,8 +1,9 @@
 """C15 — typed objects round-trip through their dictionary form without losing entries."""
 from vplib.api import Case, ok, err
 from oracle import typed as T
+from oracle import typed_hand as H
 from oracle.canon import canon
-from oracle.pdfwriter import Name, Ref
+from oracle.pdfwriter import Name, Ref, Stream
 
 ID = "C15"
 LEVEL = "proof"
@@ -11,7 +12,7 @@ COQ_TARGETS = ["Properties/C15", "Pins/C15", "Typed/Font"]
 THEOREMS = [("PdfV.Properties.C15", n) for n in
             ["C15_value_rt", "C15_fields_rt", "C15_dict_rt", "C15_generated_wf", "C15_generated_indirect",
              "C15_generated_value_rt", "C15_hand_Rectangle", "C15_hand_Matrix", "C15_hand_Date", "C15_hand_Action",
-             "C15_dict_rt_read", "C15_int_real", "C15_top_rt", "C15_top_rt_maybe_ref", "C15_generated_top_wf"]]
+             "C15_dict_rt_read", "C15_int_real", "C15_top_rt", "C15_top_rt_maybe_ref", "C15_generated_top_wf", "C15_hand_Encoding", "C15_hand_NameTree"]]
 import os as _os
 if _os.environ.get("VP_DEV_NOTHM"):      # development only: correspondence without the proof targets
     COQ_TARGETS, THEOREMS = ["Typed/Run"], []
@@ -22,12 +23,15 @@ TRUSTED_BASE = ["coqc 8.16.1 kernel (vm_compute for the schema well-formedness l
                 "Extraction + ExtrOcamlBasic, ocamlfind ocamlopt 4.13.1, coq/driver/main.ml",
                 "harness pdfh (Rust: modes/typed.rs), tools/vplib, tools/oracle/typed.py (equivalences of the property text, ISO 32000-1 date syntax)"]
 ASSUMPTIONS = ["dictionary key order is not observable (IndexMap::swap_remove / HashMap order abstracted; both sides print sorted keys)",
-               "hand-written pairs outside Date/Rectangle/Matrix are a parameter of the generic theorems (premise hand_law); their fields are left out by the generator",
+               "hand-written pairs outside Date/Rectangle/Matrix/Action/NameTree are a parameter of the generic theorems (premise hand_law); Encoding has its own theorem (C15_hand_Encoding); the other pairs are judged by specification oracles of their written form",
                "the proc-macro expansion is modelled (interpreter over the extracted schemas) and tied by correspondence, not verified",
                "i32 -> f32 conversion (`as f32`) is the round-to-nearest-even function Prim.f32_of_i32 (compared bit-exactly on every case)"]
 RULE = ("per derived struct with reader and writer: random well-typed field assignments (present/absent optionals, defaults, "
         "one-or-many, nested models, references to objects, unknown extra keys, shuffled key order), one case per field forced "
-        "present and one forced absent, ill-typed mutants (model comparison only); hand-written Date/Rectangle/Matrix values; "
+        "present and one forced absent, ill-typed mutants (model comparison only); EVERY hand-written Object/ObjectWrite pair "
+        "(Encoding/Differences, BaseEncoding, Rectangle, Matrix, Date, Dest, Action, name and number trees, ColorSpace, "
+        "CidToGidMap, Font variants, stream dictionaries, leaf types and wrappers) with boundary values of each field, judged "
+        "two-sidedly against the written form the standard defines (tools/oracle/typed_hand.py); "
         "judged against the property text (second write identical, every input entry preserved up to the stated equivalences) "
         "and against the extracted Coq interpreter; non-trivial = dictionary with at least one entry; distinct by input line")
 
@@ -139,11 +143,12 @@ PARAM_FILTERS = ("FlateDecode", "LZWDecode")
 STREAM_KEYS = ("Length", "Filter", "DecodeParms", "F", "FFilter", "FDecodeParms")
 
 
-def eff_filters(d):
-    """what a stream dictionary says about its filters (ISO 32000-1 Table 5): [(name, non-default parameters)]"""
-    f = d.get("Filter")
+def eff_filters(d, fk="Filter", pk="DecodeParms"):
+    """what a stream dictionary says about its filters (ISO 32000-1 Table 5): [(name, non-default parameters)];
+    fk/pk = FFilter/FDecodeParms: the filters of the external file"""
+    f = d.get(fk)
     names = [] if f is None else ([f] if isinstance(f, Name) else list(f))
-    p = d.get("DecodeParms")
+    p = d.get(pk)
     parms = [] if p is None else ([p] if isinstance(p, dict) else list(p))
     out = []
     for i, n in enumerate(names):
@@ -166,9 +171,13 @@ def check_stream(d, keep_all):
         w1 = T.uncanon(f[1])
         if eff_filters(w1) != eff_filters(d):
             return "filters/parameters changed: %r -> %r" % (eff_filters(d), eff_filters(w1))
+        if eff_filters(w1, "FFilter", "FDecodeParms") != eff_filters(d, "FFilter", "FDecodeParms"):
+            return "file filters/parameters changed: %r -> %r" % (eff_filters(d, "FFilter", "FDecodeParms"), eff_filters(w1, "FFilter", "FDecodeParms"))
+        if d.get("F") is not None and not (isinstance(w1.get("F"), dict) and T.equiv(d["F"], w1["F"], {})):
+            return "entry /F (the external file) lost or changed: %r -> %r" % (d["F"], w1.get("F"))
         if keep_all:
             for k, v in d.items():
-                if v is None or k in ("Filter", "DecodeParms", "Length"):
+                if v is None or k in ("Filter", "DecodeParms", "Length", "FFilter", "FDecodeParms"):
                     continue
                 if k not in w1:
                     return "entry /%s lost" % k
@@ -208,17 +217,24 @@ def stream_cases(rng, tier):
                 continue
             e.update(d)
             cls = []
-            if rng.random() < 0.25:
-                e[rng.choice(["F", "FFilter"])] = rng.choice([{"EF": {}}, Name("ASCIIHexDecode")])
-                if "F" in e and not isinstance(e["F"], dict):
-                    e["F"] = {"EF": {}}
-                if "FFilter" in e and isinstance(e["FFilter"], dict):
-                    e["FFilter"] = Name("ASCIIHexDecode")
+            if rng.random() < 0.35:
+                # the data lives in an external file (Table 5: /F, /FFilter, /FDecodeParms — one entry per file filter)
+                e["F"] = rng.choice([{"EF": {}}, {"EF": {"F": Ref(7)}}, {"EF": {"F": Ref(7), "UF": Ref(8, 1)}}])     # FileSpec declares /EF only
+                fn = [rng.choice(["ASCIIHexDecode", "FlateDecode", "LZWDecode"]) for _ in range(rng.randrange(3))]
+                if len(fn) == 1:
+                    e["FFilter"] = Name(fn[0]) if rng.random() < 0.5 else [Name(fn[0])]
+                elif fn:
+                    e["FFilter"] = [Name(x) for x in fn]
+                fp = [({"Predictor": 12, "Columns": rng.choice([4, 9])} if x in PARAM_FILTERS and rng.random() < 0.6 else None) for x in fn]
+                if any(x is not None for x in fp):
+                    e["FDecodeParms"] = fp[0] if len(fp) == 1 and rng.random() < 0.5 else fp
                 cls = ["class:stream-file"]
             yield Case("typed_roundtrip", fields_line("Stream<ImageDict>", e, []), check=check_stream(e, True), model=False, tags=tags + cls)
 
 
-def check_font(d):
+def check_font(d, objs_in=()):
+    objs = {i + 1: o for i, o in enumerate(objs_in)}
+
     def chk(r):
         if r[0] != "OK":
             return "%s %s" % (r[0], r[1])
@@ -233,26 +249,61 @@ def check_font(d):
                 continue
             if k not in w1:
                 return "entry /%s lost" % k
-            if not T.equiv(v, w1[k], {}):
+            if not T.equiv(v, w1[k], objs):
                 return "entry /%s changed: %r -> %r" % (k, v, w1[k])
         return None
     return chk
 
 
 def font_cases(rng, tier):
-    for _ in range(40 if tier == "quick" else 400):
-        d = {"Type": Name("Font"), "Subtype": Name(rng.choice(["Type1", "TrueType"])), "BaseFont": Name(rng.choice(["Helvetica", "ABCDEF+Foo"]))}
-        if rng.random() < 0.6:
-            n = rng.randrange(4)
-            d.update({"FirstChar": 32, "LastChar": 32 + n - 1, "Widths": [rng.choice([250, 500.5, 722]) for _ in range(n)]})
-        tags = ["font"]
-        if rng.random() < 0.4:
-            d[rng.choice(["Zz1", "Name", "Custom"])] = rng.choice([7, Name("F1"), b"x"])
+    """Font (font.rs): every FontData variant — simple fonts (Type1, TrueType: TFont), composite fonts (Type0) and their
+    descendants (CIDFontType0/2: CIDFont) — with /Encoding as a name and as a dictionary whose /Differences start at
+    code 0, 1, 2 or 255, /ToUnicode, and entries no typed field maps (kept in `_other`)"""
+    fd = lambda: {"FontName": Name("ABCDEF+Foo"), "Flags": rng.choice([4, 32]), "FontBBox": [0, -200, 1000, 900.5],
+                  "ItalicAngle": rng.choice([0, -12.5])}
+    for _ in range(60 if tier == "quick" else 600):
+        objs = []
+        kind = rng.choice(["Type1", "TrueType", "Type0", "CIDFontType0", "CIDFontType2"])
+        d = {"Type": Name("Font"), "Subtype": Name(kind), "BaseFont": Name(rng.choice(["Helvetica", "ABCDEF+Foo"]))}
+        tags = ["font", "font:" + kind]
+        if kind in ("Type1", "TrueType"):
+            if rng.random() < 0.6:
+                n = rng.randrange(4)
+                d.update({"FirstChar": 32, "LastChar": 32 + n - 1, "Widths": [rng.choice([250, 500.5, 722]) for _ in range(n)]})
+            if rng.random() < 0.4:
+                d["FontDescriptor"] = fd()
+            if rng.random() < 0.6:
+                first = rng.choice([0, 1, 2, 39, 255])
+                names = [Name(rng.choice(H.GLYPHS)) for _ in range(1 if first == 255 else rng.randint(1, 3))]
+                d["Encoding"] = rng.choice([Name("WinAnsiEncoding"), Name("MacRomanEncoding"),
+                                            {"BaseEncoding": Name("WinAnsiEncoding"), "Differences": [first] + names},
+                                            {"BaseEncoding": Name("MacRomanEncoding"), "Differences": [first] + names + [first + 10, Name("bullet")] if first < 200 else [first] + names}])
+                tags.append("font:encoding")
+        elif kind == "Type0":
+            cid = {"Type": Name("Font"), "Subtype": Name("CIDFontType2"), "BaseFont": Name("ABCDEF+Foo"), "CIDSystemInfo": {"Registry": b"Adobe", "Ordering": b"Identity", "Supplement": 0},
+                   "FontDescriptor": fd()}
+            objs.append(cid)
+            d.update({"Encoding": Name("Identity-H"), "DescendantFonts": [Ref(1)]})
+        else:
+            d.update({"CIDSystemInfo": {"Registry": b"Adobe", "Ordering": b"Identity", "Supplement": 0}, "FontDescriptor": fd()})
+            if rng.random() < 0.5:
+                d["DW"] = rng.choice([1000, 500.5])
+            if rng.random() < 0.5:
+                d["W"] = [1, [500, 600.5], 10, 12, 250]
+            if rng.random() < 0.4:
+                d["CIDToGIDMap"] = Name("Identity")
+        if rng.random() < 0.3:
+            objs.append(Stream({}, b"/CIDInit /ProcSet findresource begin end"))
+            d["ToUnicode"] = Ref(len(objs))
+            tags.append("font:tounicode")
+        if rng.random() < 0.5:
+            for k in rng.sample(["Zz1", "Name", "Custom", "AAPL:Key"], rng.randint(1, 2)):
+                d[k] = rng.choice([7, Name("F1"), b"x", [1, None, 2.5], {"a": 1}])
             tags.append("class:font-other")
         keys = list(d)
         rng.shuffle(keys)
         d = {k: d[k] for k in keys}
-        yield Case("typed_roundtrip", fields_line("Font", d, []), check=check_font(d), model=False, tags=tags)
+        yield Case("typed_roundtrip", fields_line("Font", d, objs), check=check_font(d, objs), model=False, tags=tags)
 
 
 # ---------------------------------------------------------------------------------------------- containers on their own
@@ -319,6 +370,109 @@ def container_cases(rng, tier):
             yield Case("typed_roundtrip", fields_line(name, v, []), check=check_container(v), tags=tags)
 
 
+
+# ---------------------------------------------------------------------------------------------- every hand-written pair
+
+# types of the universe of Typed/Run.v (ty_by_name): the extracted model runs them too
+HAND_MODELLED = {"Encoding", "BaseEncoding", "FontType", "Rectangle", "Matrix", "Date", "NameTree<Primitive>",
+                 "i32", "u32", "usize", "f32", "bool", "Name", "PdfString", "Primitive", "Dictionary", "PlainRef", "()",
+                 "Ref<Dictionary>", "RcRef<Dictionary>", "MaybeRef<Dictionary>", "MaybeRef<i32>", "Lazy<Dictionary>", "Box<i32>",
+                 "Option<i32>", "Option<Name>", "HashMap<Name,i32>", "HashMap<Name,Option<i32>>", "(i32,Name)", "(f32,f32)",
+                 "Vec<i32>", "Vec<f32>", "Vec<Name>", "Vec<u32>"}
+
+
+def has_stream(v):
+    if isinstance(v, Stream):
+        return True
+    if isinstance(v, dict):
+        return any(has_stream(x) for x in v.values())
+    if isinstance(v, list):
+        return any(has_stream(x) for x in v)
+    return False
+
+
+def check_written(inp, expected, tags=()):
+    """two-sided judgement of sentence 1: the written form of the value read is the form the standard defines for it
+    (the input itself when the input is in the writer's image), and the second write equals the first"""
+    want = None if expected is H.ANY else canon(H.sort_keys(expected))
+
+    def chk(r):
+        if r[0] != "OK":
+            return "%s %s" % (r[0], r[1])
+        f = r[1]
+        if ("cs:unwritable" in tags or "fn:unwritable" in tags) and f[0] == b"ok" and len(f) == 2 and f[1] == b"!Other":
+            # a value the library reads but refuses to write (the crate's `unimplemented!()` is an Err): outside the
+            # quantifier of C15 by its wording ("can both read and write"); were it written, the form below is demanded
+            return None
+        if f[0] != b"ok":
+            return "a value in the domain of the standard is rejected: " + f[0].decode("latin-1")
+        if len(f) < 3:
+            return "the value read cannot be written: " + f[1].decode("latin-1")
+        if len(f) < 4 or f[3] != b"ok":
+            return "written form cannot be read back: " + (f[3].decode("latin-1") if len(f) > 3 else "?")
+        if len(f) < 6:
+            return "re-read value cannot be written: " + f[4].decode("latin-1")
+        if want is not None and f[1] != want:
+            return "written form of the value read from %r is %r, the standard's form is %r" % (inp, T.uncanon(f[1]), expected)
+        if f[1] != f[4]:
+            return "second write differs: %r then %r" % (T.uncanon(f[1]), T.uncanon(f[4]))
+        if "class:stream-direct" in tags and has_stream(T.uncanon(f[1])):
+            return "a stream is written directly inside an array or dictionary (7.3.8: streams are indirect objects)"
+        return None
+    return chk
+
+
+_FORM_ONLY = {}      # case key -> the judgement of a `class:stream-direct` case without the directness clause
+
+
+def hand_case(tname, inp, objs, expected, tags, kind):
+    model = tname in HAND_MODELLED and not has_stream(objs)
+    tags = ["hand:" + tname, "kind:" + kind] + list(tags)
+    if "class:stream-direct" in tags and kind != "malformed":
+        c = Case("typed_roundtrip", fields_line(tname, inp, objs), check=check_written(inp, expected, tags), model=model, tags=tags)
+        _FORM_ONLY[c.key()] = check_written(inp, expected, [t for t in tags if t != "class:stream-direct"])
+        return c
+    if kind == "malformed":
+        # outside the standard: no specification; the implementation must agree with the model (where there is one),
+        # must not panic (always), and a successful round trip must be stable
+        def chk(r, _t=tuple(tags)):
+            if r[0] != "OK":
+                return "%s %s" % (r[0], r[1])
+            f = r[1]
+            if len(f) >= 6 and f[1] != f[4]:
+                return "second write differs"
+            return None
+        return Case("typed_roundtrip", fields_line(tname, inp, objs), check=chk, model=model, tags=tags, kind="malformed")
+    return Case("typed_roundtrip", fields_line(tname, inp, objs), check=check_written(inp, expected, tags), model=model, tags=tags)
+
+
+def hand_cases(rng, tier):
+    q = tier == "quick"
+    n = 25 if q else 400
+    for c in H.encoding_cases(rng, 60 if q else 1500):
+        yield hand_case("Encoding", *c)
+    yield from (hand_case(*c) for c in H.name_enum_cases(S(), ("BaseEncoding", "FontType")))
+    for c in H.numbers_cases(rng, 4, n):
+        yield hand_case("Rectangle", *c)
+    for c in H.numbers_cases(rng, 6, n, extra_ok=True):
+        yield hand_case("Matrix", *c)
+    for c in H.date_cases(rng, n):
+        yield hand_case("Date", *c)
+    yield from (hand_case(*c) for c in H.dest_cases(rng, n))
+    G = T.Gen(S(), rng)
+    yield from (hand_case(*c) for c in H.tree_cases(rng, n // 2, False, lambda: G.any_prim(1), "NameTree<Primitive>"))
+    yield from (hand_case(*c) for c in H.tree_cases(rng, n // 2, False, lambda: rng.choice([0, -1, H.I32_MAX, H.I32_MIN]), "NameTree<i32>"))
+    yield from (hand_case(*c) for c in H.tree_cases(rng, n // 2, True, lambda: rng.choice([0, -1, H.I32_MAX, H.I32_MIN]), "NumberTree<i32>"))
+    yield from (hand_case(*c) for c in H.tree_cases(rng, n // 2, True, lambda: rng.choice([{}, {"S": Name("D")}, {"S": Name("r"), "P": b"A-", "St": 1}, {"St": H.I32_MAX}]),
+                                                    "NumberTree<PageLabel>"))
+    for c in H.colorspace_cases(rng, n):
+        yield hand_case("ColorSpace", *c)
+    for c in H.function_cases(rng):
+        yield hand_case("Function", *c)
+    for c in H.cid_to_gid_cases(rng):
+        yield hand_case("CidToGidMap", *c)
+    yield from (hand_case(*c) for c in H.scalar_cases(rng))
+
 WRONG = [None, 7, -1, 2.5, True, Name("Bogus"), b"str", [], [Name("x"), 1], {}, {"a": 1}, Ref(99)]
 
 
@@ -373,6 +527,7 @@ def struct_cases(rng, sidx, n_random, tier):
 
 def generate(rng, tier):
     _COV.clear()
+    _FORM_ONLY.clear()
     yield Case("typed_types", [], check=lambda r: None, model=False, tags=["types"])
     n = 40 if tier == "quick" else 700
     for i, s in enumerate(S().structs):
@@ -382,12 +537,15 @@ def generate(rng, tier):
     yield from container_cases(rng, tier)
     yield from stream_cases(rng, tier)
     yield from font_cases(rng, tier)
+    yield from hand_cases(rng, tier)
     for _ in range(40 if tier == "quick" else 600):          # explicit destinations: outside the Coq model
         G = T.Gen(S(), rng)
         v = G.action(dests=True)
         yield Case("typed_roundtrip", fields_line("Action", v, []), check=check_hand(v, []), model=not isinstance(v.get("D"), list),
                    tags=["hand:Action"])
     for h, hid in T.MODELLED_HAND.items():
+        if h == "Encoding":
+            continue                                             # hand_cases: boundary generators + the standard's written form
         for _ in range(80 if tier == "quick" else 1500):
             G = T.Gen(S(), rng)
             v = G.prim([33, hid], allow_ref=False)
@@ -410,12 +568,11 @@ def nontrivial(c):
 
 def classify(case, impl, model):
     tags = case.tags
-    if impl and impl[0] == "PANIC" and "types.rs" in str(impl[1]) and "ObjectWrite for NameTree" in str(impl[1:]):
-        return "C15-c"          # the panic site and message of NameTree::to_primitive, wherever the tree is nested
-    if "class:font-other" in tags and impl and impl[0] == "OK":
-        return "C15-e"
-    if "class:stream-file" in tags and impl and impl[0] == "OK":
-        return "C15-g"
+    if "class:stream-direct" in tags and impl and impl[0] == "OK":
+        # attributed to the open finding only when directness is the ONLY defect: the form itself (string below 100 bytes,
+        # stream from 100 on, data, second write) must be the standard's
+        form = _FORM_ONLY.get(case.key())
+        return "C15-i" if form is not None and form(impl) is None else None
     return None
 
 
@@ -426,11 +583,13 @@ def witness_case(f, c):
         objs = [T.uncanon(x) for x in c.fields[2:]]
         if name.startswith("Stream<"):
             c.check, c.model = check_stream(v, name != "Stream<()>"), False
-            if f["id"] == "C15-g":
-                c.tags.add("class:stream-file")
         elif name == "Font":
             c.check, c.model = check_font(v), False
             c.tags.add("class:font-other")
+        elif f["id"] == "C15-i":
+            c.tags.update(["class:stream-direct", "hand:" + name])
+            c.check, c.model = check_written(v, v, c.tags), False
+            _FORM_ONLY[c.key()] = check_written(v, v, [t for t in c.tags if t != "class:stream-direct"])
         elif name == "NameTree<Primitive>":
             c.check = check_hand(v, objs)
             c.tags.add("hand:NameTree<Primitive>")
